@@ -694,4 +694,46 @@ def join_obs_rightOuter (nl0 nl1 nr0 nr1 : String) (bl0 bl1 br0 br1 : B) : Optio
           some [(nr0, br0), (nr1, br1), (nl0, bl0), (nl1, bl1)]
 
 end
+
+section
+variable {P : Type} [DecidableEq P]
+
+/-- `_join_measurements('none', [Ml], [Mr])` (source sha256 a17c6294d320c799…); measurement = (name, POI, parameter configurations); `none` = `InvalidWorkspaceOperation` -/
+def join_meas_none (ml mr poil poir pl pr : String) (cl cr : P) : Option (List (String × String × List (String × P))) :=
+  if ml = mr then
+    none
+  else
+    some [(ml, poil, [(pl, cl)]), (mr, poir, [(pr, cr)])]
+
+/-- `_join_measurements('outer', [Ml], [Mr])` (source sha256 a17c6294d320c799…); measurement = (name, POI, parameter configurations); `none` = `InvalidWorkspaceOperation` -/
+def join_meas_outer (ml mr poil poir pl pr : String) (cl cr : P) : Option (List (String × String × List (String × P))) :=
+  if ml = mr then
+    if poil = poir then
+      if pl = pr then
+        if cl = cr then
+          some [(ml, poil, [(pl, cl)])]
+        else
+          none
+      else
+        some [(ml, poil, [(pl, cl), (pr, cr)])]
+    else
+      none
+  else
+    some [(ml, poil, [(pl, cl)]), (mr, poir, [(pr, cr)])]
+
+/-- `_join_measurements('left outer', [Ml], [Mr])` (source sha256 a17c6294d320c799…); measurement = (name, POI, parameter configurations); `none` = `InvalidWorkspaceOperation` -/
+def join_meas_leftOuter (ml mr poil poir pl pr : String) (cl cr : P) : Option (List (String × String × List (String × P))) :=
+  if ml = mr then
+    some [(ml, poil, [(pl, cl)])]
+  else
+    some [(ml, poil, [(pl, cl)]), (mr, poir, [(pr, cr)])]
+
+/-- `_join_measurements('right outer', [Ml], [Mr])` (source sha256 a17c6294d320c799…); measurement = (name, POI, parameter configurations); `none` = `InvalidWorkspaceOperation` -/
+def join_meas_rightOuter (ml mr poil poir pl pr : String) (cl cr : P) : Option (List (String × String × List (String × P))) :=
+  if ml = mr then
+    some [(mr, poir, [(pr, cr)])]
+  else
+    some [(mr, poir, [(pr, cr)]), (ml, poil, [(pl, cl)])]
+
+end
 end Pyhf.Gen
